@@ -117,6 +117,7 @@ Qed.
 Ltac spec_all :=
   repeat match goal with
   | H : ?x = ?x -> _ |- _ => specialize (H eq_refl)
+  | H : ?a = ?b -> _, H' : ?a = ?b |- _ => specialize (H H')
   | H : true = false -> _ |- _ => clear H
   | H : false = true -> _ |- _ => clear H
   | H : Pending = Failed -> _ |- _ => clear H
@@ -127,20 +128,46 @@ Ltac spec_all :=
   end.
 
 (* split on one boolean, simplify, prune *)
-Ltac db b := destruct b; cbn in *; spec_all; try discriminate; subst.
+Ltac db b := destruct b; cbn in *; spec_all; try discriminate; subst; rewrite ?app_nil_r in *.
 
+Arguments ordered l : simpl never.
+
+Ltac cnt :=
+  repeat (rewrite ?count_eof_app, ?count_close_app; cbn [count_eof count_close Nat.add]);
+  solve [ reflexivity | assumption | lia | congruence | discriminate ].
+Ltac ordfin :=
+  first [ assumption | reflexivity
+        | apply ordered_snoc;
+          [ ordfin | cnt | cbn [is_data_or_eof]; intros; first [ discriminate | cnt ] ] ].
 Ltac lfin :=
-  repeat (rewrite ?written_app, ?count_eof_app, ?count_close_app, ?app_nil_r, <- ?app_assoc;
-          cbn [written count_eof count_close app]);
-  solve [ reflexivity | assumption | discriminate | congruence | lia
-        | apply ordered_snoc; cbn [is_data_or_eof];
-          solve [assumption | reflexivity | congruence | discriminate | lia | intros; congruence] ].
+  lazymatch goal with
+  | |- ordered _ = true => solve [ ordfin ]
+  | _ =>
+    repeat (rewrite ?written_app, ?count_eof_app, ?count_close_app, ?app_nil_r, <- ?app_assoc;
+            cbn [written count_eof count_close app]);
+    solve [ reflexivity | assumption | discriminate | congruence | lia ]
+  end.
+
+Lemma written_snoc l e : written (l ++ [e]) = written l ++ match e with TWrite d => d | _ => [] end.
+Proof. rewrite written_app. destruct e; simpl; rewrite ?app_nil_r; reflexivity. Qed.
+
+Ltac exfin :=
+  repeat (rewrite ?written_snoc, <- ?app_assoc; cbn [app]);
+  first [ reflexivity | symmetry; apply app_nil_r ].
 
 Ltac leaf1 :=
   cbn; intros; try discriminate;
-  try match goal with |- exists t, _ => eexists end;
-  repeat match goal with |- _ /\ _ => split end; intros;
-  first [ lfin | subst; lfin | spec_all; subst; lfin ].
+  lazymatch goal with
+  | |- exists t, _ =>
+      first
+        [ exists (@nil Z); split;
+          [ rewrite ?written_snoc, ?app_nil_r; cbn [app]; rewrite ?app_nil_r; reflexivity
+          | intros; reflexivity ]
+        | eexists; split; [ exfin | intros; first [ lfin | subst; lfin | spec_all; subst; lfin ] ] ]
+  | _ =>
+      repeat match goal with |- _ /\ _ => split end; intros;
+      first [ lfin | subst; lfin | spec_all; subst; lfin ]
+  end.
 Ltac leaf := constructor; leaf1.
 
 Section Step.
@@ -154,6 +181,33 @@ Ltac start s H o :=
 
 Lemma inv_dataA s d : INV c s -> legal s (DataA d) = true -> INV c (apply c s (DataA d)).
 Proof.
-  start s H o. intros Hl. db ta. db ea. destruct p; db pb; constructor; try leaf1.
+  start s H o. intros Hl. db ta. db ea. destruct p; db pb; leaf.
+Qed.
+
+Lemma inv_dataB s d : INV c s -> legal s (DataB d) = true -> INV c (apply c s (DataB d)).
+Proof.
+  start s H o. intros Hl. db pb. db eb. db lb. destruct p; cbn in *; spec_all; try discriminate.
+  db ta; leaf.
+Qed.
+
+Lemma inv_eofA s : INV c s -> legal s EofA = true -> INV c (apply c s EofA).
+Proof.
+  start s H o. intros Hl. db ta. db ea. destruct p; db pb; try db eb; leaf.
+Qed.
+
+Lemma inv_closeA s : INV c s -> legal s CloseA = true -> INV c (apply c s CloseA).
+Proof.
+  start s H o. intros Hl. db la. db ta; destruct p; db pb; leaf.
+Qed.
+
+Lemma inv_closeB s : INV c s -> legal s CloseB = true -> INV c (apply c s CloseB).
+Proof.
+  start s H o. intros Hl. destruct p; cbn in *; try discriminate. db lb. db ta; db pb; leaf.
+Qed.
+
+Lemma inv_fail s : INV c s -> legal s Fail = true -> INV c (apply c s Fail).
+Proof.
+  start s H o. intros Hl. destruct p; cbn in *; try discriminate. spec_all. subst. inversion H1; subst.
+  db ta; leaf.
 Qed.
 End Step.
